@@ -116,6 +116,7 @@ def step (op impl : String) : String × Verdict :=
       | some n, some pw, some pw2 => (lockLine typ n pw pw2, .fail)
       | _, _, _ => ("bad-op", .unknown)
   | ["alias", _, _, _] => ("ok pure", .fail)
+  | "lockext" :: _ => ("ok unlock=same reloaded=same again=same", .fail)
   | _ => ("bad-op", .unknown)
 
 end Sky.C18
